@@ -169,6 +169,28 @@ IMPLIED = [m for m in NONBRANCH if "imp" in isa.ISA[m]]
 MEM_FORMS = {"v": ("zp", "abs"), "v,x": ("zpx", "abx"), "v,y": ("zpy", "aby")}
 
 
+def separate(body, with_label=False):
+    """`label:` / `.segment "x"` / `.import ...` directly followed by `{` would take the braces as their own block.
+
+    A `nop` is put in between, or (with_label, for rewritten programs whose bytes must not change) a fresh label."""
+    i = 0
+    while i < len(body):
+        s = body[i]
+        for sub in sub_blocks(s):
+            separate(sub, with_label)
+        if i + 1 < len(body) and body[i + 1].k == "braces" and s.k in ("label", "seguse", "import") and s.block is None:
+            if with_label:
+                d = Def("sep_%d" % next(_uid), "label", s.scope)
+                d.live = True
+                body.insert(i + 1, Stmt("label", s.scope, d=d, block=None, bscope=None))
+                # (a label directly followed by braces would again take them as its block: a constant does not)
+                body[i + 1] = Stmt("const", s.scope, d=Def("sep_%d" % next(_uid), "const", s.scope), expr=("num", 0, "0"))
+                body[i + 1].d.live = True
+            else:
+                body.insert(i + 1, Stmt("instr", s.scope, mn="nop", form="none", expr=None))
+        i += 1
+
+
 class Gen:
     """One random program. knobs: dict of feature weights/limits."""
 
@@ -266,15 +288,8 @@ class Gen:
         return prog
 
     def _separate(self, body):
-        """`label:` / `.segment "x"` / `.import ...` directly followed by `{` would take the braces as their own block."""
-        i = 0
-        while i < len(body):
-            s = body[i]
-            for sub in sub_blocks(s):
-                self._separate(sub)
-            if i + 1 < len(body) and body[i + 1].k == "braces" and s.k in ("label", "seguse", "import") and s.block is None:
-                body.insert(i + 1, Stmt("instr", s.scope, mn="nop", form="none", expr=None))
-            i += 1
+        separate(body)
+
 
     def _import_pos(self, body):
         # not directly in front of a braces statement (an import followed by `{` takes it as its parameter block)
@@ -586,7 +601,7 @@ class Gen:
                     in_loop = True
                 if anc.barrier:
                     break
-            if site.kind in ("named", "brace") and not in_loop and site.uid in self._block_scopes():
+            if site.kind in ("named", "brace") and (not in_loop or self.k.get("blk_in_loops")) and site.uid in self._block_scopes():
                 cands.append(("blk", site))
             labels = [d for d in site.defs.values() if d.kind == "label" and d.live]
             if labels and rng.random() < 0.6:
